@@ -355,6 +355,24 @@ pub fn run(tier: Tier) {
                 }
             };
             tb_built.fetch_add(1, Ordering::Relaxed);
+            // the extended token is what travels: after serialization it is still the same token
+            let reloaded = guard(|| tb.to_vec().map_err(|e| format!("{e:?}")).and_then(|v| Biscuit::from(&v, root(Alg::Ed).public()).map_err(|e| format!("{e:?}"))));
+            match reloaded {
+                Ok(Ok(r)) => {
+                    for (ai, ab) in auth_builders.iter().enumerate().filter(|(ai, _)| (ai + ei) % 4 == 0) {
+                        let (a, b) = (observe(ab, &tb, false), observe(ab, &r, false));
+                        let same = match (&a, &b) {
+                            (Ok(x), Ok(y)) => format!("{:?}", x.decision) == format!("{:?}", y.decision),
+                            (Err(x), Err(y)) => x == y,
+                            _ => false,
+                        };
+                        if !same {
+                            ctx.violation_lazy("C03/extended-token-decides-differently-after-serialization".to_string(), || json!({"token": tdesc, "extension": edesc, "authorizer": format!("{:?}", auths[ai]), "in_memory": format!("{:?}", a.as_ref().map(|o| format!("{:?}", o.decision))), "reloaded": format!("{:?}", b.as_ref().map(|o| format!("{:?}", o.decision)))}));
+                        }
+                    }
+                }
+                other => ctx.violation_lazy("C03/extended-token-does-not-reload".to_string(), || json!({"token": tdesc, "extension": edesc, "error": format!("{other:?}")})),
+            }
             for (ai, ab) in auth_builders.iter().enumerate() {
                 triples.fetch_add(1, Ordering::Relaxed);
                 let o1 = &base_obs[ai];
